@@ -25,8 +25,8 @@ def assume_margin(x):
 # string-prefix queues: rows take their keys from a concrete pool (symbolic choice, presence, values, expiry); the pool holds
 # members of several queues, near misses of the key range and ordinary keys
 QPOOL = ['a-499999999999999', 'a-500000000000000', 'a-500000000000001', 'ab-500000000000000', 'a', 'a-', 'a.5', 'b-500000000000000',
-         'a-b-500000000000000', 'a-b-500000000000001', 500000000000000, 'A-500000000000000', 'a-b', 'a,500000000000000', '-500000000000000', '-499999999999999', '']
-PREFIXES = ['a', 'a-b', 'b', 'ab', '']
+         'a-b-500000000000000', 'a-b-500000000000001', 500000000000000, 'A-500000000000000', 'a-b', 'a,500000000000000', '-500000000000000', '-499999999999999', '', 'q5-500000000000000', 'q5-500000000000001', '4x-499999999999999']
+PREFIXES = ['a', 'a-b', 'b', 'ab', '', 'q5', '4x']  # incl. prefixes that share characters with the 15-digit counter
 
 
 def is_member(k, prefix):
@@ -195,7 +195,29 @@ def ob_push_prefix(w, P):
     return x.result()
 
 
-FUNCS = {'ob_push_prefix': ['core.Cache.push', 'core.Cache._row_insert', 'core.Cache._transact'], 'ob_push': ['core.Cache.push', 'core.Cache._row_insert', 'core.Cache._cull', 'core.Cache._transact', 'core.Disk.store'],
+@directive_aware
+def ob_push_file(w, P):
+    """push of a file-backed value (bytes at or above the threshold, or a stream with read=True) under the directives: a busy lock
+    without retry raises Timeout and leaves neither row nor value file; with retry / after a fault / a kill the bookkeeping holds"""
+    x = Ctx(w, P, min_file_size=0, kinds=('int',), cull_limit=0)
+    c = x.c
+    assume_margin(x)
+    side = P.get('side', 'back')
+    prefix = P.get('prefix')
+    if P.get('read'):
+        import io
+        st, ret = x.call(c.push, io.BytesIO(b'stream-value'), side=side, prefix=prefix, read=True)
+    else:
+        st, ret = x.call(c.push, b'file-value', side=side, prefix=prefix)
+    kc = w.bind(ret)
+    new = x.T1.lookup(kc, Cell(INT, 1))
+    x.add('C10,C01', 'the pushed item is stored under the returned key with a value file', And(new.present, EqR(new.c['mode'].num, 2), Not(x.T0.lookup(kc, Cell(INT, 1)).present)))
+    x.add('C10,C08', 'nothing else changed', And(unchanged(x.T0, x.T1), EqI(x.T1.count(), sx.AddI(x.T0.count(), 1))))
+    x.inv()
+    return x.result()
+
+
+FUNCS = {'ob_push_file': ['core.Cache.push', 'core.Cache._transact', 'core.Disk.store', 'core.Disk._write', 'core.Disk.remove'], 'ob_push_prefix': ['core.Cache.push', 'core.Cache._row_insert', 'core.Cache._transact'], 'ob_push': ['core.Cache.push', 'core.Cache._row_insert', 'core.Cache._cull', 'core.Cache._transact', 'core.Disk.store'],
          'ob_pull': ['core.Cache.pull', 'core.Cache.peek', 'core.Disk.fetch', 'core.Disk.remove', 'core.Cache._transact']}
 
 
@@ -208,8 +230,8 @@ def jobs(tier):
     Ns = [2] if tier == 'quick' else [2, 3, 4]
     for N in Ns:
         for side in ('back', 'front'):
-            add('ob_push', 'C10,C08', weight=N ** 3, N=N, side=side, policy='least-recently-stored')
-            add('ob_push', 'C10,C08', weight=N ** 3, N=N, side=side, policy='none')
+            add('ob_push', 'C10,C08,C04', weight=N ** 3, N=N, side=side, policy='least-recently-stored')
+            add('ob_push', 'C10,C08,C04', weight=N ** 3, N=N, side=side, policy='none')
             for peek in (False, True):
                 add('ob_pull', 'C10,C04,C08,C01', weight=N, must=['queue_empty', 'queue_item'], N=N, side=side, peek=peek)
         add('ob_pull', 'C10,C04,C08', N=N, side='front', peek=False, expire_time=True, tag=True)
@@ -219,6 +241,13 @@ def jobs(tier):
             add('ob_push_prefix', 'C10,C08,C03', weight=6, N=2, side=side, prefix=prefix, kinds=('int',))
             for peek in (False, True):
                 add('ob_pull', 'C10,C04,C08', weight=6, must=['queue_empty', 'queue_item'], N=2, side=side, peek=peek, prefix=prefix, kinds=('int',))
+    for extra in (dict(), dict(read=True), dict(prefix='a', side='front')):
+        nm = 'push_file' + ''.join('.%s=%s' % kv for kv in sorted(extra.items()))
+        F_ = FUNCS['ob_push_file']
+        out.append(dict(id=nm + '.busy.noretry', func='ob_push_file', params=dict(N=1, busy=1, **extra), tags=['C14', 'C08'], functions=F_, weight=2, must_reach=['timeout_raised']))
+        out.append(dict(id=nm + '.busy.retry', func='ob_push_file', params=dict(N=1, busy=1, retry=True, **extra), tags=['C14'], functions=F_, weight=6, must_reach=['lock_busy'], all_clauses=True))
+        out.append(dict(id=nm + '.fault', func='ob_push_file', params=dict(N=1, fault=True, **extra), tags=['C08'], functions=F_, weight=10, only_tags=['C08', 'FAULT']))
+        out.append(dict(id=nm + '.kill', func='ob_push_file', params=dict(N=1, crash=True, **extra), tags=['C07'], functions=F_, weight=20, must_reach=['crashed']))
     for func, P in (('ob_push', dict(side='back', policy='least-recently-stored')), ('ob_pull', dict(side='front', peek=False)), ('ob_pull', dict(side='front', peek=True))):
         nm = func[3:] + ('.peek' if P.get('peek') else '')
         out.append(dict(id=nm + '.busy.noretry', func=func, params=dict(N=2, busy=1, **P), tags=['C14', 'C08'], functions=FUNCS[func], weight=2, must_reach=['timeout_raised']))
